@@ -449,7 +449,9 @@ def c12(a):
               "limit/|v|, fieldwise equality, SignedDuration::try_from(Span); SignedDuration: checked/saturating add/sub of "
               "every pool value with every limit value, mul/div by i32 factors incl. 0, -1, MIN/MAX (division checked "
               "relationally), neg, unit views, from_<unit>, new(secs, nanos) with any i32 nanos, std Duration conversions, "
-              "Span::try_from, f64 conversions with the exact (mantissa, exponent) decomposition. All arithmetic is exact "
+              "Span::try_from, f64 conversions with the exact (mantissa, exponent) decomposition, mul_f64 / div_f64 / "
+              "div_duration_f64 against the exact product / quotient of the nanosecond count and the float's exact value "
+              "(relative 2^-45; a panic only when that result is unrepresentable or the factor is not finite). All arithmetic is exact "
               "BigInt arithmetic on the nanosecond count.")
     c.assumptions = TRUSTED + ["the harness's f64 bit decomposition"]
     return c.finish()
